@@ -123,6 +123,7 @@ impl<Key, Value> Store<Key, Value>
     pub(crate) fn delete(&self, key: &Key) -> Option<KeyIdExpiry> {
         if let Some(pair) = self.store.remove(key) {
             self.stats_counter.delete_key();
+            #[cfg(cached_verif)] crate::cache::verif::event("store_removed", &[pair.1.key_id() as i64]);
             return Some(KeyIdExpiry(pair.1.key_id(), pair.1.expire_after()));
         }
         None
@@ -188,6 +189,20 @@ impl<Key, Value> Store<Key, Value>
 
         if mapped_value.is_some() { self.stats_counter.found_a_hit(); } else { self.stats_counter.found_a_miss(); }
         mapped_value
+    }
+}
+
+#[cfg(cached_verif)]
+impl<Key, Value> Store<Key, Value>
+    where Key: Hash + Eq, {
+    pub(crate) fn verif_entries(&self, key_fn: &dyn Fn(&Key) -> i64, value_fn: &dyn Fn(&Value) -> i64) -> Vec<crate::cache::verif::StoreEntry> {
+        self.store.iter().map(|pair| crate::cache::verif::StoreEntry {
+            key: key_fn(pair.key()),
+            value: value_fn(pair.value().value_ref()),
+            id: pair.value().key_id(),
+            expiry: pair.value().expire_after().map(|time| (crate::cache::verif::secs(&time), crate::cache::verif::nanos(&time))),
+            soft_deleted: pair.value().is_soft_deleted,
+        }).collect()
     }
 }
 
